@@ -34,9 +34,9 @@ claimed={
  "C09": ("Real putClassAdToMessageWithOptions on an ad whose attribute name is arbitrary (<= 13 identifier bytes), all privacy option combinations, whitelist, encrypted-attribute list, any peer version, three stream states: private values reach the wire only with opt-in (and version gate), and on a keyed stream only in frames flushed while encrypting.", "5.C09",
          "independent private-name predicate (DESIGN A.6); second attribute fixed in the quick tier"),
  "C16": ("ParseClaimIDStrict on sid#[info]key for arbitrary parts (<= 5 bytes each, sid may contain '#'); ExportSecSessionInfo/ImportSecSessionInfo round trip over 5120 policy combinations.", "5.C16",
-         "mint/import with real key derivation and the resume-by-claim flow are not yet covered"),
- "C18": ("Real validateFSAuthPath/fsAddrLeaf/verifyFSPathEndpoint over arbitrary paths (<= 24/30 bytes) and connection addresses against independently written leaf shapes: accepted => directly under /tmp, one safe component, recognised shape, address-qualified names name the connected endpoint.", "5.C18",
-         "IPv4 endpoints (IPv6 texts only as an uninterpreted function); client/server filesystem effects not yet covered"),
+         "resume-by-claim over a connection is not covered; expiry decided separately (claimExpiration)"),
+ "C18": ("Real validateFSAuthPath/fsAddrLeaf/verifyFSPathEndpoint over arbitrary paths (<= 24/30 bytes) and connection addresses against independently written leaf shapes: accepted => directly under /tmp, one safe component, recognised shape, address-qualified names name the connected endpoint; real performFSAuthenticationServer against every kind of object at the agreed path, and real performFSAuthenticationClient against arbitrary supplied paths, on a filesystem model.", "5.C18",
+         "IPv4 endpoints (IPv6 texts only as an uninterpreted function); filesystem effects decided on the engine's filesystem model (single owner, sequential), replayed natively on real objects under /tmp"),
  "C11": ("validateTokenTiming over an arbitrary clock, claim types and maximum age; the server and client token flows with the real third / second step and the real deferred-failure logic, earlier steps and the MAC / key derivations replaced by stubs of arbitrary outcome: success only if no step failed, the peer reported OK, echoed identity and nonce, and sent exactly the expected MAC with nothing trailing; identity recorded is the one validation established.", "5.C11",
          "token parsing, signature recomputation and HMAC/HKDF are stubs (seams); standalone VerifyIDToken not yet covered"),
  "C19": ("Real readWithContext / writeWithContext with a harness context implementing the context package's AfterFunc hook and a connection that completes, fails or stalls until closed, under every cancellation timing: cancelled => returns the context's error with the connection closed (a stalled call is unblocked); never-cancelled or non-cancellable context => exactly the I/O's result.", "5.C19",
